@@ -185,6 +185,7 @@ class Watch:
         self.pristine = self.table_snapshot()
         self.expect = {}          # servo -> ('stop',) | ('stow', fire tick, allowed) | ('move', future mode)
         self.inflight = {}        # servo -> future mode of a SETUP/PRESET whose arrival was not yet seen
+        self.pt_nonfinite_start = False
 
     def table_snapshot(self):
         c = self.rig.system.configurations
@@ -203,7 +204,13 @@ class Watch:
         sn.pop('msg')
         return sn
 
+    CONSEQUENCES = ('msv_coordinate_not_finite', 'msv_reported_not_finite', 'msv_no_arrival', 'msv_mode_sequence')
+
     def fail(self, klass, what, **extra):
+        if self.pt_nonfinite_start and klass in self.CONSEQUENCES:
+            # NaN coordinates downstream of an accepted PROGRAMTRACK with a nan/inf start time: one finding
+            what = 'after PROGRAMTRACK with a non-finite start time was accepted: ' + what
+            klass = 'msv_pt_nonfinite_start_time'
         if klass in self.failed:
             return
         self.failed.add(klass)
@@ -350,6 +357,16 @@ class Watch:
             self.expect[args[0]] = ('stop',)
         if good and cmd == 'PROGRAMTRACK' and args and args[0] in sysm.servos:
             self.expect.pop(args[0], None)
+            if len(args) > 3 and args[3] != '*':
+                try:
+                    st = float(args[3])
+                except ValueError:
+                    st = 0.0
+                if not math.isfinite(st):
+                    self.pt_nonfinite_start = True
+                    self.fail('msv_pt_nonfinite_start_time',
+                              'PROGRAMTRACK with start time %r answered GOOD (nan/inf pass the past-time check; '
+                              'the spline computed from such times makes the reported coordinates nan)' % args[3])
         if good and cmd == 'PRESET' and args and args[0] in sysm.servos:
             self.expect[args[0]] = ('move', 40)
             self.inflight[args[0]] = 40
@@ -436,6 +453,19 @@ def run_trace(ctx, trace, timer_value=5, seed=0):
     return w
 
 
+def corpus_traces():
+    """minimised past failures: corpus/C20/*.json, each {"trace": [[line or null, dticks], ...], "timer_value": n}"""
+    import glob
+    import json
+    import os
+    d = os.path.join(os.path.dirname(os.path.dirname(os.path.abspath(__file__))), 'corpus', 'C20')
+    out = []
+    for f in sorted(glob.glob(os.path.join(d, '*.json'))):
+        o = json.load(open(f))
+        out.append((o['trace'], o.get('timer_value', 5)))
+    return out
+
+
 DIRECTED = [
     [[None, 0], ['STOP=GFR', 10], ['PRESET=GFR,9999', 10]],
     [[None, 0], ['STOW=M3R,1', 10], ['PRESET=M3R,-9999', 10]],
@@ -456,6 +486,10 @@ def oracle(ctx):
         lim0 = H.limits(rig0)
     finally:
         rig0.close()
+    for tr, tv in corpus_traces():        # past failures first
+        w = run_trace(ctx, tr, tv)
+        checked += w.checked
+        histories += 1
     for tr in DIRECTED + [v for _, v in sorted(H.refused_prefix_traces(lim0).items())] \
             + pair_traces('GFR') + pair_traces('SRP'):
         w = run_trace(ctx, tr)
